@@ -105,7 +105,7 @@ func runC01(o *cli.Opts, run *evid.Run) {
 	})
 	run.Stage("gadget")
 	// full circuits
-	full := []dim{{3, 2}, {1, 1}}
+	full := []dim{{3, 2}, {1, 1}, {32, 1}} // (32,1): the deepest tree a uint32 start index addresses
 	if o.Thorough() {
 		full = []dim{{3, 2}, {1, 1}, {2, 3}, {32, 1}, {4, 5}, {10, 3}, {31, 2}}
 	}
